@@ -498,9 +498,18 @@ func genC18Script(t *rapid.T, opsPer int) c18Script {
 		c.Buffers = append(c.Buffers, b)
 	}
 	// a small set of own-packet templates, reused across goroutines (distinct structs are built per goroutine)
+	// every packet kind must get its turn under the race detector: the kinds rotate with a drawn
+	// offset, so over the scripts of one run all 15 leaf kinds (and compounds) are marshalled,
+	// printed and decoded by several goroutines at once
 	var templates []m.Packet
+	rot := rapid.IntRange(0, len(gen.LeafKinds)-1).Draw(t, "kind.rot")
 	for i := 0; i < 4; i++ {
-		p := genValue(t)
+		var p m.Packet
+		if i == 3 && rapid.IntRange(0, 3).Draw(t, "compound?") == 0 {
+			p = gen.PacketOf(t, m.KCOMPOUND)
+		} else {
+			p = gen.PacketOf(t, gen.LeafKinds[(rot+i*4)%len(gen.LeafKinds)])
+		}
 		shrinkBig(p)
 		templates = append(templates, p)
 	}
